@@ -7,8 +7,8 @@ The filters themselves (`Gen/StdioExit.lean`: marker strings, which branch ends 
 REGENERATED from the source on every run; this file is their interpreter:
 
 * `except Exception as e` sees one ordinary exception (cancellation is a `BaseException` and is not
-  caught at all): cancelled class → swallowed; else the first marker contained in `str(e).lower()`
-  decides, else the `else` branch;
+  caught at all): cancelled class → swallowed; else the first branch whose class guard (if it has one:
+  `isinstance(e, <Class>)`) holds and whose marker is contained in `str(e).lower()` decides, else the `else` branch;
 * `except BaseExceptionGroup as eg` walks `eg.exceptions` in order and re-raises the whole group at
   the first member whose branch raises; cancelled members are skipped.
 
@@ -32,27 +32,32 @@ def contains (needle : List Char) : List Char → Bool
   | [] => needle.isEmpty
   | c :: cs => isPrefix needle (c :: cs) || contains needle cs
 
-def firstMatch (msg : List Char) : List (String × Bool) → Option Bool
-  | [] => none
-  | (m, r) :: rest => if contains m.toList msg then some r else firstMatch msg rest
+/-- `isinstance(exc, <cls>)` for an exception whose class has the method resolution order `mro` (class names) -/
+def guardHolds (mro : List String) : Option String → Bool
+  | none => true
+  | some cls => mro.contains cls
 
-/-- one exception: `true` = re-raised -/
-def decideOne (f : Filter) (cancelled : Bool) (msg : List Char) : Bool :=
-  if cancelled then false else (firstMatch (lower msg) f.markers).getD f.otherwise
+def firstMatch (mro : List String) (msg : List Char) : List (String × Option String × Bool) → Option Bool
+  | [] => none
+  | (m, g, r) :: rest => if guardHolds mro g && contains m.toList msg then some r else firstMatch mro msg rest
+
+/-- one exception (the names of its class and of all its base classes, its `str()`): `true` = re-raised -/
+def decideOne (f : Filter) (cancelled : Bool) (mro : List String) (msg : List Char) : Bool :=
+  if cancelled then false else (firstMatch mro (lower msg) f.markers).getD f.otherwise
 
 /-- what can be raised inside the `async with` body or by the connection's own tasks -/
 inductive Exc where
-  /-- an `Exception` with this `str()` -/
-  | error (msg : List Char)
+  /-- an `Exception` of a class with this MRO (class names) and this `str()` -/
+  | error (mro : List String) (msg : List Char)
   /-- the backend's cancellation class (a `BaseException`) -/
   | cancelled
-  /-- a group; members are (is cancellation, `str()`) -/
-  | group (members : List (Bool × List Char))
+  /-- a group; members are (is cancellation, MRO, `str()`) -/
+  | group (members : List (Bool × List String × List Char))
 
 /-- does it propagate out of the context manager?  (`single`, `grp` = the two filters of the function) -/
 def propagates (single grp : Filter) : Exc → Bool
-  | .error msg => decideOne single false msg
+  | .error mro msg => decideOne single false mro msg
   | .cancelled => true                      -- not an `Exception`: no handler applies
-  | .group ms => ms.any (fun m => decideOne grp m.1 m.2)
+  | .group ms => ms.any (fun m => decideOne grp m.1 m.2.1 m.2.2)
 
 end Verif.Model.StdioExit
